@@ -487,6 +487,74 @@ func c13Menu() []c13op {
 			return dg(frsDigest(inv), err != nil, err2 != nil)
 		}, none
 	})
+	add("calls that end with an error (malformed proof, short polynomial, mismatched MSM, un-normalisable batch, invalid encodings)", func(c *ipa.IPAConfig, seed int64) ([]interface{}, func() string, func() string) {
+		p := c12Fixture(c, seed)
+		bad := ipa.IPAProof{L: slackEl(p.proof.L[:7]), R: slackEl(p.proof.R), A_scalar: p.proof.A_scalar}
+		s := stmt{label: "vt", zs: []int{3, 200}, polys: []namedPoly{pick(polyAlphabet(seed), 10), pick(polyAlphabet(seed), 12)}}
+		is := s.build(c)
+		mp, err := multiproof.CreateMultiProof(common.NewTranscript("vt"), c, is.Cs, is.fs, is.zs)
+		if err != nil {
+			panic(core.ImplFault{API: "CreateMultiProof", Input: "honest statement " + s.String(), Got: "error: " + err.Error()})
+		}
+		short := &multiproof.MultiProof{D: mp.D, IPA: ipa.IPAProof{L: slackEl(mp.IPA.L[:7]), R: slackEl(mp.IPA.R), A_scalar: mp.IPA.A_scalar}}
+		pts := []banderwagon.Element{c.SRS[1], c.SRS[2], c.SRS[3]}
+		sc := slackFr(frsFromBig([]*big.Int{bi(3), bi(4)}))
+		a255 := slackFr(p.a[:255])
+		return []interface{}{&bad, short, &is.Cs, &is.ys, &sc, &a255}, func() string {
+			ok1, e1 := ipa.CheckIPAProof(common.NewTranscript("ipa"), c, p.cm, bad, p.z, p.y)
+			ok2, e2 := multiproof.CheckMultiProof(common.NewTranscript("vt"), c, short, is.Cs, is.ys, is.zs)
+			_, e3 := ipa.CreateIPAProof(common.NewTranscript("ipa"), c, p.cm, a255, p.z)
+			var e banderwagon.Element
+			_, e4 := e.MultiExp(pts, sc, banderwagon.MultiExpConfig{NbTasks: 2, ScalarsMont: true})
+			l := make([]*banderwagon.Element, 40)
+			for i := range l {
+				v := reprOf(c.SRS[i], reprProj)
+				l[i] = &v
+			}
+			var z banderwagon.Element
+			l[20] = &z
+			e5 := banderwagon.BatchNormalize(l)
+			var x fr.Element
+			_, e6 := x.SetBytesLECanonical(bytes.Repeat([]byte{0xff}, 32))
+			e7 := e.SetBytes(bytes.Repeat([]byte{0xff}, 32))
+			var rd multiproof.MultiProof
+			e8 := rd.Read(bytes.NewReader(make([]byte, 100)))
+			return dg(ok1, e1 != nil, ok2, e2 != nil, e3 != nil, e4 != nil, e5 != nil, e6 != nil, e7 != nil, e8 != nil)
+		}, none
+	})
+	add("SetBigInt / SetInterface with integers outside [0, r) owned by the caller", func(c *ipa.IPAConfig, seed int64) ([]interface{}, func() string, func() string) {
+		v1 := new(big.Int).Add(bigR, bi(5))
+		v2 := new(big.Int).Neg(bi(7))
+		v3 := new(big.Int).Lsh(bigR, 3)
+		v4 := new(big.Int).Set(bigR)
+		return []interface{}{v1, v2, v3, v4}, func() string {
+			var a, b, d, e, f fr.Element
+			a.SetBigInt(v1)
+			b.SetBigInt(v2)
+			d.SetBigInt(v3)
+			e.SetBigInt(v4)
+			_, err := f.SetInterface(v1)
+			return dg(frToBig(a), frToBig(b), frToBig(d), frToBig(e), frToBig(f), err, v1.String(), v2.String(), v3.String(), v4.String())
+		}, none
+	})
+	add("batch encoders on 1100 caller elements in projective form", func(c *ipa.IPAConfig, seed int64) ([]interface{}, func() string, func() string) {
+		store := make([]banderwagon.Element, 1100)
+		list := make([]*banderwagon.Element, len(store))
+		for i := range store {
+			store[i] = reprOf(c.SRS[(i*11)%256], 1+i%3)
+			list[i] = &store[i]
+		}
+		return []interface{}{&store}, func() string {
+			x := banderwagon.ElementsToBytes(list...)
+			y := banderwagon.BatchToBytesUncompressed(list...)
+			res := make([]*fr.Element, len(list))
+			for i := range res {
+				res[i] = new(fr.Element)
+			}
+			err := banderwagon.BatchMapToScalarField(res, list)
+			return dg(x[0], x[1099], y[0][:8], y[1099][:8], frToBig(*res[0]), frToBig(*res[1099]), err)
+		}, none
+	})
 	add("fr comparisons and predicates on caller elements (LexicographicallyLargest, Cmp, IsZero, IsUint64, Legendre, Equal), repeated", func(c *ipa.IPAConfig, seed int64) ([]interface{}, func() string, func() string) {
 		xs := slackFr(frsFromBig([]*big.Int{bi(1), bi(2), new(big.Int).Sub(bigR, bi(1)), new(big.Int).Sub(bigR, bi(2)), prfR(seed, "c13", 11), new(big.Int).Rsh(bigR, 1)}))
 		return []interface{}{&xs}, func() string {
